@@ -52,11 +52,17 @@ func (t *transformer) OnRequest(obj public_types.APIStreamI) (actions.ReqLunarAc
 		return nil, fmt.Errorf("failed to prepare request: %w", err)
 	}
 	obj.SetRequest(transformed)
+	// The URL of a request may not parse: GetParsedURL returns nil then, and the
+	// path as received is kept.
+	path := obj.GetRequest().GetPath()
+	if parsedURL := obj.GetRequest().GetParsedURL(); parsedURL != nil {
+		path = parsedURL.Path
+	}
 	return &actions.ModifyRequestAction{
 		HeadersToSet: obj.GetHeaders(),
 		Host:         obj.GetRequest().GetHost(),
 		Body:         obj.GetRequest().GetBody(),
-		Path:         obj.GetRequest().GetParsedURL().Path,
+		Path:         path,
 		QueryParams:  obj.GetRequest().GetQuery(),
 	}, nil
 }
